@@ -33,7 +33,7 @@ Lemma mid_begin ord cur des cn live :
   NoDup (keys cur) -> NoDup (keys des) -> Permutation ord (keys cur) ->
   (forall q e, lookup q cur = Some e -> e_id e = q) ->
   (forall q e, lookup q cur = Some e -> e_rt e = None -> cn = true) ->
-  (forall j k c, In (j, (k, c)) live -> exists q e, lookup q cur = Some e /\ e_rt e = Some j /\ e_id e = k) ->
+  (forall j k c, In (j, (k, c)) live -> exists q e, lookup q cur = Some e /\ e_rt e = Some j /\ e_id e = k /\ e_cfg e = c) ->
   let pend := build_pending true ord cur des in
   mid_ok des cur [] cn live pend (fst (pending_actions pend)) (stop_insts pend (snd (pending_actions pend))).
 Proof.
@@ -65,7 +65,7 @@ Proof.
     + right. now apply (C4 q old).
     + left. unfold pending_actions. cbn [fst]. unfold keys.
       change q with (fst (q, start_entry q c)). apply in_map. apply filter_In. split; [now apply lookup_some_in|reflexivity].
-  - intros j k c Hin. destruct (C7 j k c Hin) as (q & e0 & Hl & Hr & Hi).
+  - intros j k c Hin. destruct (C7 j k c Hin) as (q & e0 & Hl & Hr & Hi & Hcf).
     assert (ST : forall q', lookup q' pend = Some (set_act AStop e0) ->
                  In j (stop_insts pend (snd (pending_actions pend)))).
     { intros q' H. rewrite stop_insts_eq by exact Hnd. apply (in_rts_filter isstop pend q' (set_act AStop e0));
